@@ -349,6 +349,13 @@ theorem iter_advance_correct (d : Data ε) (hne : allPos d.partitioning) (p : Na
   have hs := d.sum_partitioning
   refine ⟨advance_canon d.partitioning hne p (by omega) n h0 (by omega), fun hq => deref_canon d _ hq⟩
 
+/-- witness for the hypothesis `allPos` (no empty batch) of the iterator theorems: with an empty batch in the
+middle (`Data(numBatches)` creates such datasets) `++it` from position 0 lands *on* the empty batch (1, 0), not on
+the canonical position (2, 0) of element 1 — the C++ then reads `getBatchElement(emptyBatch, 0)`.  The real
+containers never produce empty batches through the operations of this property (checked by the oracle). -/
+theorem iter_needs_nonempty_batches_witness :
+    Iter.increment [1, 0, 2] (canon [1, 0, 2] 0) = some ⟨1, 0, 1⟩ ∧ canon [1, 0, 2] 1 = ⟨2, 0, 1⟩ := by decide
+
 /-! ## D. LabeledData: same partitioning, pairs never separated -/
 
 /-- inputs and labels are partitioned identically -/
